@@ -1,6 +1,7 @@
 (* Properties_C05.v — property C05: checkers treat their input as read-only. Statements only; each closed by [exact]. *)
 From GC Require Import Base Model_Inventory Model_Walk Model_Heap Proofs_Heap Review_MutSites.
 From GCgen Require Import MutationSites StateInventory.
+From GC Require Import Review_State.
 
 (* frame law per rewriting shape: every cell allocated before the checker ran is unchanged afterwards *)
 Theorem C05_boolExprSimplify_frame : forall fuel h root id, (id < next h)%N ->
@@ -147,6 +148,18 @@ Theorem C05_context_not_written_by_constructors :
           state_inventory = true.
 Proof. vm_compute. reflexivity. Qed.
 Print Assumptions C05_context_not_written_by_constructors.
+
+(* the tables the checkers share (package-level variables of checkers/, checkers/internal/*, linter/: the registered collection,
+   the predeclared-identifier table, ...) are read-only input of every checker as well. A write rooted at such a variable, and — for
+   maps, slices and pointers — a copy of the reference into a field, literal or variable (kind alias: writes through that copy reach
+   the shared table without naming it), must be a reviewed site; constructor sites included, because a constructor runs per
+   configuration while the table is shared by all checkers of the process *)
+Eval vm_compute in (unreviewed reviewed_state (filter (fun s => String.eqb (s_name s) "package-level variables") state_inventory)).
+Theorem C05_shared_tables_written_only_at_reviewed_sites :
+  forallb (fun s => negb (String.eqb (s_name s) "package-level variables") || struct_reviewed reviewed_state s) state_inventory = true.
+Proof. vm_compute. reflexivity. Qed.
+Print Assumptions C05_shared_tables_written_only_at_reviewed_sites.
+
 
 Theorem C05_inventory_sane :
   (10 <=? N.of_nat (length mutation_sites))%N = true
